@@ -1875,7 +1875,8 @@ def r18_6(prog, rep, rid='R18.6', gid='R18.9'):
                       'here): a node outside of that selection is offered '
                       'with its blocked %ss FREE'
                       % (f.qual, what, short(stmt, 50), why, what),
-                      loc=f.loc(head.ast), history=hist)
+                      loc=f.loc(head.ast),
+                      history=res[2] if len(res) > 2 else hist)
             # the marking happens once the RM has built the list
             cn = sn if ctx is top else ctx.callnode
             after = must_pass(top.g, top.g.entry.id, cn.id, init_calls)
@@ -1975,8 +1976,23 @@ def node_domain(ctx, dom, sn, nodex):
             raise Unrecognised('loop `%s in %s`' % (short(t), short(it, 50)))
         defs = reaching_defs(g, nodex.id, sn.id)
         if len(defs) == 1 and defs[0][1] is not None and \
-                isinstance(defs[0][1], ast.Subscript):
+                isinstance(defs[0][1], (ast.Subscript, ast.Name)):
             return node_domain(ctx, dom, defs[0][0], defs[0][1])
+        # the variable of a loop which is over when the site runs: the site
+        # sees the element the loop stopped at, once, not every element
+        if defs and all(dn.kind == 'for' and dn.id not in sn.loops and
+                        nodex.id in stores_of(dn.ast.target)
+                        for dn, v in defs):
+            hn = defs[0][0]
+            return hn, ('partial', 'the last value the finished loop `for %s '
+                        'in %s` left in `%s` (the statement is outside of '
+                        'that loop and runs once, for one node)'
+                        % (short(hn.ast.target), short(hn.ast.iter, 50),
+                           nodex.id),
+                        'a pilot with more than one node and a non-empty '
+                        'configured blocked list: only the last node of the '
+                        'list gets the entries marked DOWN, every other node '
+                        'offers them FREE')
         raise Unrecognised('`%s` is not a loop element' % nodex.id)
     if isinstance(nodex, ast.Subscript) and \
             isinstance(nodex.slice, ast.Name):
@@ -4319,6 +4335,18 @@ MUTATIONS = [
         (_B, _MARK_GPUS, "\n            for node in rm_info.node_list[:rm_info.requested_nodes]:\n" + _MARK_GPUS)]),
     dict(name='R18.6 marking loop stops after the first node', rules=('R18.6',), edits=[
         (_B, _MARK_GPUS, _MARK_GPUS + "\n                if not rm_info.backup_nodes:\n                    break\n")]),
+    dict(name='R18.6 GPU marking loop dedented out of the node loop, stale loop variable (seed C18-i3)', rules=('R18.6',), edits=[
+        (_B, _MARK_GPUS, "\n            for idx in blocked_gpus:\n                assert len(node['gpus']) > idx\n"
+                         "                node['gpus'][idx] = rpc.DOWN\n")]),
+    dict(name='R18.6 core marking moved behind the node loop, stale loop variable', rules=('R18.6',), edits=[
+        (_B, _MARK, "            for node in rm_info.node_list:\n\n"
+                    "                for idx in blocked_gpus:\n                    assert len(node['gpus']) > idx\n"
+                    "                    node['gpus'][idx] = rpc.DOWN\n\n"
+                    "            for idx in blocked_cores:\n                assert len(node['cores']) > idx\n"
+                    "                node['cores'][idx] = rpc.DOWN\n")]),
+    dict(name='R18.6 GPU marking in the else clause of the node loop', rules=('R18.6',), edits=[
+        (_B, _MARK_GPUS, "\n            else:\n                for idx in blocked_gpus:\n                    assert len(node['gpus']) > idx\n"
+                         "                    node['gpus'][idx] = rpc.DOWN\n")]),
     dict(name='R18.6 GPU marking walks the blocked core indices', rules=('R18.6',), edits=[
         (_B, "                for idx in blocked_gpus:\n                    assert len(node['gpus']) > idx\n",
              "                for idx in blocked_cores:\n                    assert len(node['gpus']) > idx\n")]),
@@ -4533,6 +4561,17 @@ SILENT = [
                     "                    assert len(node['cores']) > idx\n                    node['cores'][idx] = rpc.DOWN\n\n"
                     "            for node in rm_info.node_list:\n                gpus = node['gpus']\n                for idx in blocked_gpus:\n"
                     "                    assert len(gpus) > idx\n                    gpus[idx] = rpc.DOWN\n")]),
+    dict(name='GPUs marked in a second complete loop which re-uses the loop variable', edits=[
+        (_B, _MARK_GPUS, "\n            for node in rm_info.node_list:\n" + _MARK_GPUS)]),
+    dict(name='two marking loops over a local alias of the list, the second behind the first', edits=[
+        (_B, _MARK, "            nl = rm_info.node_list\n            for node in nl:\n"
+                    "                for idx in blocked_cores:\n                    assert len(node['cores']) > idx\n"
+                    "                    node['cores'][idx] = rpc.DOWN\n\n"
+                    "            for n in nl:\n                node = n\n                for idx in blocked_gpus:\n"
+                    "                    assert len(node['gpus']) > idx\n                    node['gpus'][idx] = rpc.DOWN\n")]),
+    dict(name='GPU marking nested idx-outermost behind the core loop', edits=[
+        (_B, _MARK_GPUS, "\n            for idx in blocked_gpus:\n                for node in rm_info.node_list:\n"
+                         "                    assert len(node['gpus']) > idx\n                    node['gpus'][idx] = rpc.DOWN\n")]),
     dict(name='marking loop skips the GPU part when no GPU is blocked', edits=[
         (_B, _MARK_GPUS, "\n                if not blocked_gpus:\n                    continue\n" + _MARK_GPUS)]),
     dict(name='LSF passes cpn=0 explicitly', edits=[
